@@ -115,6 +115,10 @@ def cells(tier):
         for op in ('roStoryInsert', 'roStoryReplace', 'EAStoryReplace'):
             for k in kk:
                 out.append(mk(op, N, k=k, timeout=T))
+        if tier == 'quick':
+            # carried elements do not fork: three of them are as cheap as two
+            for op in ('roStoryInsert', 'roStoryReplace', 'EAStoryReplace', 'EAStoryInsert', 'roStoryAppend'):
+                out.append(mk(op, N, k=3, gap=None, timeout=T))
         for k in kk:
             out.append(mk('EAStoryInsert', N, k=k, timeout=T))
             out.append(mk('EAStoryInsert', N, k=k, tk='blank', trail=1, timeout=T))
